@@ -132,3 +132,40 @@ Definition print_severity_ref (f_add_string : bytes -> bytes -> bytes -> bytes) 
        | None => None
        | Some t => Some (f_wrap_to buf clr bg (f_wrap_rune t 91 93) ++ [x20])
        end.
+
+(* what pc.source() hands out: the caller triple after path hardening *)
+Record srcv := { src_file : bytes; src_line : Z; src_function : bytes }.
+
+(* Entry.printPC.  [key] = what pcAppendStringKey appends for the field name `caller`, [fname] = checkedfuncname of the
+   frame's function (None = it panics), [reset] = what echoResetColor appends.  Plain formats: the member separator
+   FIRST (the caller part follows the attributes), then in JSON mode the member `caller` holding an object with file, line
+   and function, in logfmt the three prefixed members separated by blanks; colour mode: blank, file, ':', line, blank, the
+   function name in dark gray (90), and the colours are reset. *)
+Definition print_pc_ref (f_add_string : bytes -> bytes -> bytes -> bytes) (f_add_int : bytes -> bytes -> Z -> bytes)
+  (f_add_pstring : bytes -> bytes -> bytes -> bytes -> bytes) (f_add_pint : bytes -> bytes -> bytes -> Z -> bytes)
+  (f_append_int : bytes -> Z -> bytes) (f_wrap_color_to : bytes -> Z -> bytes -> bytes)
+  (key : bytes -> option bytes) (fname : option bytes) (reset : bytes) (src : srcv) (noColor jsonMode : bool) (buf : bytes) : option bytes :=
+  let n_caller := [x63;x61;x6c;x6c;x65;x72] in let n_file := [x66;x69;x6c;x65] in let n_line := [x6c;x69;x6e;x65] in
+  let n_function := [x66;x75;x6e;x63;x74;x69;x6f;x6e] in
+  let sep := [if jsonMode then x2c else x20] in
+  if noColor
+  then let b := buf ++ sep in
+       if jsonMode
+       then match key b with
+            | None => None
+            | Some b =>
+                let b := (b ++ [x3a]) ++ [x7b] in
+                let b := f_add_string b n_file (src_file src) ++ sep in
+                let b := f_add_int b n_line (src_line src) ++ sep in
+                Some (f_add_string b n_function (src_function src) ++ [x7d])
+            end
+       else let b := f_add_pstring b n_caller n_file (src_file src) ++ sep in
+            let b := f_add_pint b n_caller n_line (src_line src) ++ sep in
+            Some (f_add_pstring b n_caller n_function (src_function src))
+  else match fname with
+       | None => None
+       | Some nm =>
+           let b := ((buf ++ [x20]) ++ src_file src) ++ [x3a] in
+           let b := f_append_int b (src_line src) ++ [x20] in
+           Some (f_wrap_color_to b 90 nm ++ reset)
+       end.
